@@ -11,7 +11,8 @@
                        are cut out of `_packed` and the length lowered by 8
     flow.py            len(1), or 0xFn len(1) when the first byte has its high nibble set:
                        `((b0 & 0x0F) << FLOW_LENGTH_EXTENDED_SHIFT) + b1`; keeps the payload only and
-                       re-encodes the length (`_encode_length`: one byte below 240, two below 4095)
+                       re-encodes the length (`_encode_length`: one byte below `flowCompactLimit` = 240, two below
+                       `flowEncodeLimit`, both probed on the live method by the table plugin)
     vpls.py            len(2) ≥ 17 and the NLRI must be ALL the remaining data; keeps len + 17 bytes
     rtc.py             0 → 1 byte; 32..96 → always 13 bytes; keeps them with the two high bits of byte 5 cleared
     sr_policy.py       bits(1) = 96 (IPv4) / 192 (IPv6), payload(bits/8); keeps the payload, re-adds the length
@@ -81,8 +82,8 @@ def splitBgpls (vpn : Bool) (d : Bytes) : Option Cut :=
 
 /-- `Flow._encode_length` (none: the encoder raises) -/
 def flowFrame (v : Bytes) : Option Bytes :=
-  if v.length < flowCompactMax then some (v.length :: v)
-  else if v.length < flowExtendedMax then some ((flowExtendedValue + v.length / 256) :: v.length % 256 :: v)
+  if v.length < flowCompactLimit then some (v.length :: v)
+  else if v.length < flowEncodeLimit then some ((flowExtendedValue + v.length / 256) :: v.length % 256 :: v)
   else none
 
 /-- `Flow.unpack_nlri`, with the shift as a parameter (`flowShift` in the code). -/
